@@ -200,6 +200,22 @@ def mon_names(ctx):
             obj = ctx.U.objs[ctx.outcome[1]["new"]]
             if obj.id == a.get("oid"):
                 return ("ids.ctor-replace", "malformed id %r was kept" % (a.get("oid"),))
+            # "replaced by a fresh one": not by one computed from the refused text - a second
+            # object given the same text must get another id, and no object may hold it already
+            import odml
+            knd = kind_of(obj)
+            try:
+                twin = odml.Document(oid=a.get("oid")) if knd == "doc" else \
+                    (odml.Section if knd == "sec" else odml.Property)(name="probe", oid=a.get("oid"))
+            except Exception:
+                twin = None
+            if twin is not None and twin.id == obj.id:
+                return ("ids.ctor-replace", "malformed id %r is replaced by the same id %s every "
+                        "time: not a fresh one" % (a.get("oid"), obj.id))
+            for j, other in enumerate(ctx.U.objs):
+                if other is not obj and kind_of(other) != "other" and other.id == obj.id:
+                    return ("ids.ctor-replace", "the id that replaces malformed %r is the id of "
+                            "obj#%d" % (a.get("oid"), j))
     if ctx.name == "new_id" and "id_malformed" in ctx.labels:
         if not ctx.raised:
             return ("ids.new_id-reject", "new_id(%r) was accepted" % (a.get("oid"),))
